@@ -25,6 +25,7 @@ type Clause struct {
 	AnchorOrd  int    // 0 = every occurrence
 	GhostVar   string // ghost assignment target
 	Props      string // package invariant: the properties whose checks it is in force for ("" = all)
+	Optional   bool   // anchored clause that may match no statement
 }
 
 type FuncContract struct {
@@ -130,7 +131,7 @@ var (
 	reClauseProps = regexp.MustCompile(`^\((C\d+(?:\s+C\d+)*)\)\s*`)
 	reLabel     = regexp.MustCompile(`^\[([\w\-.#]+)\]\s*`)
 	reLoop      = regexp.MustCompile(`^loop\s+(\d+)\s+invariant\s*`)
-	reAtCall    = regexp.MustCompile(`^(at|after)\s+call\s+(\S+)\s+#(\d+|\*)\s+(assert|ghost|assume)\s*`)
+	reAtCall    = regexp.MustCompile(`^(at|after)\s+call\s+(\S+)\s+#(\d+|\*|\?)\s+(assert|ghost|assume)\s*`)
 	reAtReturn  = regexp.MustCompile(`^at\s+return\s+#?(\d+|\*)\s+(?:inscope\((\w+)\)\s+)?(assert|ghost)\s*`)
 	reAtAssign  = regexp.MustCompile(`^at\s+assign\s+(\w+)\s+#(\d+|\*)\s+(assert|ghost|assume)\s*`)
 	reAtEntry   = regexp.MustCompile(`^at\s+entry\s+(ghost|assume)\s*`)
@@ -430,7 +431,13 @@ func ParseContractFile(path, pkgPath string) (*PkgContracts, error) {
 					c.AnchorKind = "aftercall"
 				}
 				c.AnchorName = m[2]
-				if m[3] != "*" {
+				switch m[3] {
+				case "*":
+				case "?":
+					// every occurrence, and there may be none: the clause models an operation the function does not
+					// perform today, so that a change which introduces it is checked rather than left unbound
+					c.Optional = true
+				default:
 					c.AnchorOrd, _ = strconv.Atoi(m[3])
 				}
 				cur.Anchored = append(cur.Anchored, c)
